@@ -87,6 +87,32 @@ reg(Entry('FixedPointComparator', ['af'], _same_small, _same_st,
           _cmp_ref, cls=_cls, outnames=['gt', 'eq', 'lt']))
 
 
+# outputs left unconnected (None): the combinations the block accepts are gt absent with eq and/or lt present
+def _cmp_opt_small(W):
+    for c in _same_small(W):
+        for outs in ('el', 'e', 'l'):
+            yield dict(c, outs=outs)
+
+
+def _cmp_opt_build(sys, i, o, c):
+    w = dict(zip(c['outs'], o))
+    return py4hw.FixedPointComparator(sys, 'dut', i[0], tuple(c['af']), i[1], tuple(c['af']), None, w.get('e'), w.get('l'))
+
+
+def _cmp_opt_ref(c, v):
+    r = _cmp_ref(c, v)
+    if r is None:
+        return None
+    full = dict(zip('gel', r))
+    return [full[k] for k in c['outs']]
+
+
+reg(Entry('FixedPointComparator.unconnected_outputs', ['af', 'outs'], _cmp_opt_small,
+          st.tuples(_same_st, st.sampled_from(['el', 'e', 'l'])).map(lambda t: dict(t[0], outs=t[1])),
+          lambda c: [width(c['af'])] * 2, lambda c: [1] * len(c['outs']), _cmp_opt_build, _cmp_opt_ref,
+          cls=lambda c: _cls(c) + ',outs=' + c['outs']))
+
+
 def _mult_small(W):
     Wm = min(W, 4)
     for af in fmts(Wm):
